@@ -34,6 +34,23 @@ def view(index: RepoIndex, func: Func, cross: Tuple[str, ...] = ()
     return out
 
 
+def component_node(index: RepoIndex, func: Func) -> Tuple[ast.FunctionDef, list]:
+    """normal form of a component function (transition / reward / ... / their helpers):
+    module helpers inlined, keyword spellings canonical, pure one-expression helpers (and
+    rng.choice's wrapper `choice(rng, L)` = `L[rng.choice(len(L))]`) expanded"""
+    key = (id(index), id(func.node), 'component')
+    hit = _CACHE.get(key)
+    if hit is not None:
+        return hit[0], hit[2]
+    node, inlined = inlined_function(index, func)
+    node = canon_calls(index, func.module, node)
+    ex = inline_pure_exprs(index, func.module, func.cls, node, cross=('choice',))
+    if ast.dump(ex) != ast.dump(node):
+        node = ex
+    _CACHE[key] = (node, None, inlined)
+    return node, inlined
+
+
 def step_wiring(index: RepoIndex) -> dict:
     """facts about GridWorld.functional_step in normal form (transition_with_copy inlined):
     the in-place transition calls, the local they mutate and its definition, the returned
